@@ -121,6 +121,14 @@ func form(p *reflist.Plan) string {
 		return set("(" + op.F + " " + x + " " + a + ")")
 	case "remove-if", "delete-if":
 		return set("(" + op.F + " 'evenp " + a + ")")
+	case "remove-fe", "delete-fe":
+		return set("(" + op.F[:6] + " " + x + " " + a + " :from-end t :count 1)")
+	case "remove-if-fe":
+		return set("(remove-if 'evenp " + a + " :from-end t :count 1)")
+	case "remove-se", "delete-se":
+		return set("(" + op.F[:6] + " " + x + " " + a + " :start " + n + " :end " + m + ")")
+	case "remove-duplicates-fe":
+		return set("(remove-duplicates " + a + " :from-end t)")
 	case "mapcar":
 		return set("(mapcar '1+ " + a + ")")
 	case "alias":
@@ -349,14 +357,14 @@ func genCase(rt *rapid.T) Case {
 			op.C = rapid.IntRange(0, nv-1).Draw(rt, "c")
 		}
 		switch op.F {
-		case "nthcdr", "last", "butlast", "subseq", "subseq1", "setnth", "setelt":
+		case "nthcdr", "last", "butlast", "subseq", "subseq1", "setnth", "setelt", "remove-se", "delete-se":
 			op.N = rapid.IntRange(0, 7).Draw(rt, "n")
 		}
-		if op.F == "subseq" {
+		if op.F == "subseq" || op.F == "remove-se" || op.F == "delete-se" {
 			op.M = rapid.IntRange(0, 7).Draw(rt, "m")
 		}
 		switch op.F {
-		case "member", "remove", "delete":
+		case "member", "remove", "delete", "remove-fe", "delete-fe", "remove-se", "delete-se":
 			op.X = rapid.IntRange(0, 9).Draw(rt, "x")
 		case "cons", "list*", "push", "setcar", "setnth", "setelt", "rplaca", "add", "add2":
 			op.X = 100 + 10*k // distinct from everything else in the pool
@@ -393,11 +401,21 @@ func instances(name string, t, a, b, c, maxN, x int, yield func(reflist.Op)) {
 				yield(o)
 			}
 		}
-	case "member", "remove", "delete":
+	case "member", "remove", "delete", "remove-fe", "delete-fe":
 		for _, xv := range []int{1, 2, 3, 99} {
 			o := base
 			o.X = xv
 			yield(o)
+		}
+	case "remove-se", "delete-se":
+		for _, xv := range []int{1, 2} {
+			for n := 0; n <= maxN; n++ {
+				for m := 0; m <= maxN-n; m++ {
+					o := base
+					o.N, o.M, o.X = n, m, xv
+					yield(o)
+				}
+			}
 		}
 	default:
 		base.X = x
@@ -407,10 +425,10 @@ func instances(name string, t, a, b, c, maxN, x int, yield func(reflist.Op)) {
 
 var (
 	derivers = []string{"alias", "cons", "list*", "append1", "append", "append3", "cdr", "rest", "nthcdr", "last", "last1", "member",
-		"remove", "remove-if", "remove-duplicates", "butlast", "butlast1", "subseq", "subseq1", "copy-list", "copy-seq",
+		"remove", "remove-if", "remove-duplicates", "remove-fe", "remove-if-fe", "remove-se", "remove-duplicates-fe", "delete-fe", "delete-se", "butlast", "butlast1", "subseq", "subseq1", "copy-list", "copy-seq",
 		"reverse", "mapcar", "push", "pop", "rplaca", "nreverse", "sort", "stable-sort", "delete", "delete-if", "delete-duplicates", "add", "add2", "nconc", "rplacd"}
 	mutators = []string{"setcar", "setnth", "setelt", "rplaca", "rplacd", "nconc", "nreverse", "sort", "stable-sort", "delete", "delete-if",
-		"delete-duplicates", "add", "add2", "push", "pop", "cons", "append", "list*"}
+		"delete-duplicates", "delete-fe", "delete-se", "add", "add2", "push", "pop", "cons", "append", "list*"}
 )
 
 // grid describes an exhaustive family of short histories: v0 = every creation mode x every length in lens;
@@ -480,7 +498,7 @@ var (
 	pairsQuick    = grid{lens: []int{0, 1, 2, 3}, first: derivers, second: reflist.Names()}
 	pairsThorough = grid{lens: []int{0, 1, 2, 3, 4}, first: derivers, second: reflist.Names()}
 	triplesQuick  = grid{lens: []int{1, 2},
-		first:  []string{"alias", "cdr", "pop", "nthcdr", "copy-list", "butlast1", "cons", "append", "add", "push", "subseq1", "last1", "remove"},
+		first:  []string{"alias", "cdr", "pop", "nthcdr", "copy-list", "butlast1", "cons", "append", "add", "push", "subseq1", "last1", "remove", "remove-fe"},
 		second: []string{"add", "nconc", "push", "pop", "setcar", "rplaca", "rplacd", "sort", "nreverse", "delete", "cons", "append"},
 		third:  []string{"add", "nconc", "setcar", "pop", "push"}}
 	triplesThorough = grid{lens: []int{0, 1, 2, 3}, first: derivers, second: reflist.Names(), third: mutators}
@@ -494,7 +512,7 @@ var (
 
 func TestC06(t *testing.T) {
 	h.Rule("a case = a pool of 2..6 variables, each a fresh list of 0..5 integers built in one of 7 ways (exact capacity, spare capacity, offset into a larger array, literal copy ...), " +
-		"plus a history of 1..6 (thorough: 1..12) operations out of " + strconv.Itoa(len(reflist.Ops)) + " (cons list* append cdr rest nthcdr last butlast subseq copy-list copy-seq reverse remove* member mapcar alias push pop " +
+		"plus a history of 1..6 (thorough: 1..12) operations out of " + strconv.Itoa(len(reflist.Ops)) + " (cons list* append cdr rest nthcdr last butlast subseq copy-list copy-seq reverse remove* (also with :from-end :count and :start :end) member mapcar alias push pop " +
 		"setf-car/nth/elt rplaca rplacd nconc nreverse sort stable-sort delete* add) with arguments and target drawn from the pool, so every aliasing pattern arises. " +
 		"Oracle = internal/reflist: value + may-share group per variable; after every step the returned value equals the reference, every variable outside the group the language allows " +
 		"to be modified prints exactly as before, defined variables have the defined value; members of the modified group are re-synchronised (don't care). " +
